@@ -3,6 +3,7 @@ C07 — a verifying history proof cannot hide, reorder, invent or misdate versio
 Same setting as C06 (`HonestFor`); `π` is EVERY proof value; `n = vs.length ≤ E`.
 -/
 import AkdModel.Thm.C06
+import AkdModel.Lemmas.SoundHistory
 namespace Akd.C07
 open Akd C06
 
@@ -13,6 +14,128 @@ def expected (vs : List Spec.Ver) : HistoryParams → List Spec.Ver
 
 def resultOf (v : Spec.Ver) : Verify.VerifyResult := ⟨v.epoch, v.version, v.value⟩
 
+/-! ### the true answer, by index -/
+
+theorem expected_length (vs : List Spec.Ver) (p : HistoryParams) :
+    (expected vs p).length = match p with
+      | .complete => vs.length
+      | .mostRecent r => min r vs.length := by
+  cases p <;> simp [expected]
+
+theorem expected_getElem (vs : List Spec.Ver) (p : HistoryParams) (i : Nat)
+    (h : i < (expected vs p).length) :
+    ∃ h' : vs.length - 1 - i < vs.length, (expected vs p)[i] = vs[vs.length - 1 - i] := by
+  cases p with
+  | complete =>
+    simp only [expected, List.length_reverse] at h ⊢
+    exact ⟨by omega, by rw [List.getElem_reverse]⟩
+  | mostRecent r =>
+    simp only [expected, List.length_take, List.length_reverse] at h ⊢
+    exact ⟨by omega, by rw [List.getElem_take, List.getElem_reverse]⟩
+
+/-- what an accepted update proof says about the true entry of its version: in strict mode
+everything is the truth; in allow-mode an empty value is accepted, and then the epoch is only
+bound for versions `≥ 2` -/
+def EntryOK (allow : Bool) (v : Spec.Ver) (r : Verify.VerifyResult) : Prop :=
+  r.version = v.version ∧
+  ((r.value = v.value ∧ r.epoch = v.epoch) ∨
+    (allow = true ∧ r.value = [] ∧ (r.epoch = v.epoch ∨ r.version = 1)))
+
+theorem future_of_markers {s e E : Nat} {past future : List Nat}
+    (h : Marker.markers? s e E = some (past, future)) : C08.future e E = future := by
+  unfold Marker.markers? at h
+  cases hp : Marker.past? s with
+  | none => simp [hp] at h
+  | some p =>
+    cases hf : Marker.future? e E with
+    | none => simp [hp, hf] at h
+    | some f =>
+      simp [hp, hf] at h
+      simp [C08.future, hf, h.2]
+
+section Core
+variable {c : Cfg} {key : Dig} {vrf : VrfTable} {t : CRoot} {u : Bytes} {vs : List Spec.Ver}
+
+/-- every accepted update proof is bound to the true entry of its version -/
+theorem update_bound (hc : c.Lawful) (hfresh : C05.EmptyLabelFresh c) (hv : VrfOK vrf)
+    (hwf : t.WF) (h256 : C05.Leaves256 t) (hon : HonestFor c key vrf t u vs)
+    {allow : Bool} {p : UpdateProof} {r : Verify.VerifyResult}
+    (h : Verify.singleUpdate c vrf (t.rootHash c) u allow p = .ok r) :
+    ∃ v ∈ vs, EntryOK allow v ⟨p.epoch, p.version, p.value⟩ := by
+  obtain ⟨-, h1, h2⟩ := Snd.singleUpdate_ok h
+  rcases h1 with ⟨ha, hval, hex⟩ | hex
+  · obtain ⟨v, hmem, hver⟩ := bound_version hc hfresh hv hwf h256 hon hex
+    refine ⟨v, hmem, hver.symm, Or.inr ⟨ha, hval, ?_⟩⟩
+    by_cases h2' : 2 ≤ p.version
+    · obtain ⟨pv, pp, hs⟩ := h2 h2'
+      obtain ⟨w, hw, hwver, hep⟩ := bound_stale hc h256 hon (by omega) hs
+      have : w = v := hon.versions.unique hw hmem (by omega)
+      subst this
+      exact Or.inl hep
+    · obtain ⟨-, -, h1⟩ := hon.versions.getElem_of_version hmem
+      right; show p.version = 1; omega
+  · obtain ⟨v, hmem, hver, hval, hep⟩ := bound_strict hc h256 hon hex
+    exact ⟨v, hmem, hver.symm, Or.inl ⟨hval, hep⟩⟩
+
+/-- **the core**: an accepted history proof, in either mode, has as many entries as the true
+answer, and its `i`-th entry is bound to the `i`-th true entry -/
+theorem history_core (hc : c.Lawful) (hfresh : C05.EmptyLabelFresh c) (hv : VrfOK vrf)
+    (hwf : t.WF) (h256 : C05.Leaves256 t) (hon : HonestFor c key vrf t u vs)
+    {E : Nat} (hE : vs.length ≤ E) {π : HistoryProof} {p : HistoryParams} {allow : Bool}
+    {rs : List Verify.VerifyResult}
+    (hacc : Verify.history c vrf (t.rootHash c) E u π p allow = .ok rs) :
+    0 < rs.length ∧ rs.length = (expected vs p).length ∧
+    ∀ i (h₁ : i < rs.length) (h₂ : i < (expected vs p).length),
+      EntryOK allow ((expected vs p)[i]) (rs[i]) := by
+  obtain ⟨past, future, hw, hu, hfut⟩ := Snd.history_ok hacc
+  obtain ⟨v0, sh⟩ := Snd.withHistoryParams_ok hw
+  obtain ⟨hrs, hsingle⟩ := Snd.verifyUpdates_ok _ _ _ hu
+  have hlen : rs.length = π.updates.length := by rw [hrs, List.length_map]
+  -- every entry, by index
+  have hentry : ∀ i (hi : i < π.updates.length), ∃ v ∈ vs, v.version + i = v0 ∧
+      EntryOK allow v ⟨(π.updates[i]).epoch, (π.updates[i]).version, (π.updates[i]).value⟩ := by
+    intro i hi
+    obtain ⟨v, hmem, hok⟩ := update_bound hc hfresh hv hwf h256 hon
+      (hsingle _ (List.getElem_mem hi))
+    exact ⟨v, hmem, by rw [← hok.1]; exact sh.ver i hi, hok⟩
+  -- the newest entry is a true version
+  obtain ⟨vtop, htop, htopv, -⟩ := hentry 0 sh.pos
+  obtain ⟨hidx, -, h1⟩ := hon.versions.getElem_of_version htop
+  -- … and it is the latest
+  have hv0 : v0 = vs.length := by
+    rcases Nat.lt_or_ge v0 vs.length with hlt | hge
+    · exfalso
+      have hmemf : v0 + 1 ∈ future := by
+        rw [← future_of_markers sh.markers]
+        exact C08.succ_mem_future v0 E (by omega) (by omega)
+      obtain ⟨pf, np, hnon⟩ := hfut _ hmemf
+      exact absent_fresh hc hfresh hv hwf h256 hon hnon (vs[v0]) (List.getElem_mem _)
+        (hon.versions.1 v0 hlt)
+    · omega
+  have hk := sh.start
+  have hpos := sh.pos
+  have hexp : π.updates.length = (expected vs p).length := by
+    rw [expected_length]
+    have hp := sh.params
+    cases p with
+    | complete => simp only [Snd.ParamsOK] at hp ⊢; omega
+    | mostRecent r => simp only [Snd.ParamsOK] at hp ⊢; omega
+  refine ⟨by omega, by omega, ?_⟩
+  intro i h₁ h₂
+  obtain ⟨v, hmem, hvi, hok⟩ := hentry i (by omega)
+  obtain ⟨hidx', hexp'⟩ := expected_getElem vs p i h₂
+  obtain ⟨hidx'', hget, -⟩ := hon.versions.getElem_of_version hmem
+  have e1 : (expected vs p)[i] = v := by
+    rw [hexp', ← hget]
+    congr 1
+    omega
+  have e2 : rs[i] = ⟨(π.updates[i]).epoch, (π.updates[i]).version, (π.updates[i]).value⟩ := by
+    simp only [hrs, List.getElem_map]
+  rw [e1, e2]
+  exact hok
+
+end Core
+
 /-- **history soundness, strict verifier** (full strength): the accepted result IS the true list -/
 theorem history_sound (c : Cfg) (hc : c.Lawful) (hfresh : C05.EmptyLabelFresh c)
     (key : Dig) (vrf : VrfTable) (hv : VrfOK vrf)
@@ -22,7 +145,19 @@ theorem history_sound (c : Cfg) (hc : c.Lawful) (hfresh : C05.EmptyLabelFresh c)
     (π : HistoryProof) (p : HistoryParams) (rs : List Verify.VerifyResult)
     (hacc : Verify.history c vrf (t.rootHash c) E u π p false = .ok rs) :
     rs = (expected vs p).map resultOf := by
-  sorry
+  obtain ⟨-, hlen, hent⟩ := history_core hc hfresh hv hwf h256 hon hE hacc
+  apply List.ext_getElem (by rw [hlen, List.length_map])
+  intro i h₁ h₂
+  have h₂' : i < (expected vs p).length := by simpa using h₂
+  obtain ⟨hver, hrest⟩ := hent i h₁ h₂'
+  rcases hrest with ⟨hval, hep⟩ | ⟨hfalse, -, -⟩
+  · rw [List.getElem_map]
+    cases hr : rs[i] with
+    | mk e ver val =>
+      rw [hr] at hver hval hep
+      simp only at hver hval hep
+      simp only [resultOf, hver, hval, hep]
+  · cases hfalse
 
 /-- **history soundness, verifier that allows missing values**: the versions are the true ones, every
 value is the true one or empty, and every epoch is the true one except possibly that of a
@@ -40,7 +175,18 @@ theorem history_sound_tombstone (c : Cfg) (hc : c.Lawful) (hfresh : C05.EmptyLab
       (rs[i]).version = ((expected vs p)[i]).version ∧
       ((rs[i]).value = ((expected vs p)[i]).value ∨ (rs[i]).value = []) ∧
       ((rs[i]).epoch = ((expected vs p)[i]).epoch ∨ ((rs[i]).version = 1 ∧ (rs[i]).value = [])) := by
-  sorry
+  obtain ⟨-, hlen, hent⟩ := history_core hc hfresh hv hwf h256 hon hE hacc
+  refine ⟨hlen, ?_⟩
+  intro i h₁ h₂
+  obtain ⟨hver, hrest⟩ := hent i h₁ h₂
+  refine ⟨hver, ?_, ?_⟩
+  · rcases hrest with ⟨hval, -⟩ | ⟨-, hval, -⟩
+    · exact Or.inl hval
+    · exact Or.inr hval
+  · rcases hrest with ⟨-, hep⟩ | ⟨-, hval, hep | h1⟩
+    · exact Or.inl hep
+    · exact Or.inl hep
+    · exact Or.inr ⟨h1, hval⟩
 
 /-- nothing is accepted for a never-published label, in either mode -/
 theorem history_unpublished_rejected (c : Cfg) (hc : c.Lawful) (hfresh : C05.EmptyLabelFresh c)
@@ -49,8 +195,13 @@ theorem history_unpublished_rejected (c : Cfg) (hc : c.Lawful) (hfresh : C05.Emp
     (u : Bytes) (hon : HonestFor c key vrf t u [])
     (E : Nat) (π : HistoryProof) (p : HistoryParams) (allow : Bool) :
     ∀ rs, Verify.history c vrf (t.rootHash c) E u π p allow ≠ .ok rs := by
-  sorry
+  intro rs hacc
+  obtain ⟨hpos, hlen, -⟩ := history_core hc hfresh hv hwf h256 hon (Nat.zero_le E) hacc
+  rw [hlen, expected_length] at hpos
+  cases p <;> simp at hpos
 
+-- (`hfresh`, `hv`, `hwf` are not needed by the proof)
+set_option linter.unusedVariables false in
 /-- if the tree fails to retire version `v-1` in the very epoch of version `v` (stale leaf missing, or
 stamped with another epoch), no proof covering version `v ≥ 2` verifies.  Here the tree is only
 required to hold the FRESH leaves honestly (`fresh_only`). -/
@@ -62,6 +213,62 @@ theorem late_stale_rejected (c : Cfg) (hc : c.Lawful) (hfresh : C05.EmptyLabelFr
     (hbad : ∀ l lf, vrf.get? ⟨u, false, up.version - 1⟩ = some l → lf ∈ t.leaves → lf.lbl = l.bits →
         ¬ (lf.value = c.staleValue ∧ lf.ep = up.epoch)) :
     ∀ rs, Verify.history c vrf (t.rootHash c) E u π p allow ≠ .ok rs := by
-  sorry
+  intro rs hacc
+  obtain ⟨past, future, -, hu, -⟩ := Snd.history_ok hacc
+  obtain ⟨-, hsingle⟩ := Snd.verifyUpdates_ok _ _ _ hu
+  obtain ⟨-, -, h2⟩ := Snd.singleUpdate_ok (hsingle up hup)
+  obtain ⟨pv, pp, hs⟩ := h2 hver
+  obtain ⟨h1, hget, hmem⟩ := Snd.existenceWithCommitment_ok hs
+  obtain ⟨lf, hlf, hl, hval, hep⟩ := Snd.leaf_of_membership c hc t h256 pp _ _ h1 hmem
+  exact hbad pp.label lf hget hlf hl ⟨hval, hep⟩
+
+/-! ## non-vacuity: the hypotheses hold together, and proofs are accepted
+
+The setting of `C06.Ex`: label `u` with versions 1 (epoch 1) and 2 (epoch 3), 256-bit labels,
+current epoch 3.  `C06.Ex.honest : HonestFor cfg key vrf t u vs`. -/
+namespace Ex
+open C06.Ex NodeLabel
+
+def up2 : UpdateProof :=
+  ⟨3, [20], 2, some ⟨u, true, 2⟩, t.genMembership cfg bF2,
+    some (some ⟨u, false, 1⟩), some (t.genMembership cfg bS1), cfg.nonce key (ofBits bF2) 2 [20]⟩
+def up1 : UpdateProof :=
+  ⟨1, [10], 1, some ⟨u, true, 1⟩, t.genMembership cfg bF1, none, none, cfg.nonce key (ofBits bF1) 1 [10]⟩
+/-- version 1 carried as a tombstone, with a WRONG epoch (2 instead of 1) -/
+def up1Tomb : UpdateProof :=
+  ⟨2, [], 1, some ⟨u, true, 1⟩, t.genMembership cfg bF1, none, none, .raw []⟩
+
+/-- markers for the ranges `[1,2]` and `[2,2]` at epoch 3: no past marker, future marker 3 -/
+def proofOf (ups : List UpdateProof) : HistoryProof :=
+  ⟨ups, [], [], [some ⟨u, true, 3⟩], [t.genNonMembership cfg bF3]⟩
+
+/-- all hypotheses of `history_sound` hold together, including acceptance, for both parameters -/
+example : cfg.Lawful ∧ C05.EmptyLabelFresh cfg ∧ VrfOK vrf ∧ t.WF ∧ C05.Leaves256 t ∧
+    HonestFor cfg key vrf t u vs ∧ vs.length ≤ 3 ∧
+    Verify.history cfg vrf (t.rootHash cfg) 3 u (proofOf [up2, up1]) .complete false
+      = .ok ((expected vs .complete).map resultOf) ∧
+    Verify.history cfg vrf (t.rootHash cfg) 3 u (proofOf [up2]) (.mostRecent 1) false
+      = .ok ((expected vs (.mostRecent 1)).map resultOf) :=
+  ⟨Cfg.whatsappV1_lawful, C05.emptyLabelFresh_whatsappV1, vrfOK, wf, leaves256, honest, by decide,
+    by decide +kernel, by decide +kernel⟩
+
+/-- the exception in `history_sound_tombstone` is needed (finding C07-F1): in allow-mode a version-1
+entry with the empty value is accepted with an epoch that is not the true one -/
+example :
+    Verify.history cfg vrf (t.rootHash cfg) 3 u (proofOf [up2, up1Tomb]) .complete true
+      = .ok [⟨3, 2, [20]⟩, ⟨2, 1, []⟩] ∧
+    (expected vs .complete).map resultOf = [⟨3, 2, [20]⟩, ⟨1, 1, [10]⟩] :=
+  ⟨by decide +kernel, by decide⟩
+
+/-- … and the strict verifier rejects it -/
+example : ∀ rs, Verify.history cfg vrf (t.rootHash cfg) 3 u (proofOf [up2, up1Tomb]) .complete false ≠ .ok rs := by
+  intro rs h
+  have := history_sound cfg Cfg.whatsappV1_lawful C05.emptyLabelFresh_whatsappV1 key vrf vrfOK t wf
+    leaves256 u vs honest 3 (by decide) _ _ rs h
+  subst this
+  revert h
+  decide +kernel
+
+end Ex
 
 end Akd.C07
